@@ -5,3 +5,4 @@ pub mod util;
 pub mod enc;
 pub mod c17;
 pub mod c14;
+pub mod c16;
